@@ -666,7 +666,7 @@ class Module:
         except SyntaxError as e:
             raise AnalysisError('cannot parse %s: %s' % (rel, e))
         from . import canon
-        self.renames = canon.canonicalise(self.tree, name)
+        self.renames = canon.canonicalise(self.tree, name, text)
         set_parents(self.tree)
         self.funcs = {}      # qual -> FuncInfo
         self.classes = {}    # name -> ClassInfo
